@@ -133,7 +133,7 @@ func (s *stackCfg) startYAML() error {
 		specs = append(specs, u.spec)
 	}
 	ps, err := sut.NewProxyStack(sut.ProxyOpts{Upstreams: specs, CookieSecure: s.Secure, CookieDomain: s.Domain,
-		CookieName: s.CookieName, HTTPOnlyOff: !s.HTTPOnly, Signer: s.Signer})
+		CookieName: s.CookieName, HTTPOnlyOff: !s.HTTPOnly, Signer: s.Signer, ViaEnv: true})
 	if err != nil {
 		return err
 	}
